@@ -37,8 +37,8 @@ Proof.
 Qed.
 
 (* ================================================================ bind_unique *)
-Theorem bind_unique_state ops sd :
-  let c := get_side (exec ops) sd in
+Theorem bind_unique_state blk ops sd :
+  let c := get_side (exec blk ops) sd in
   (forall a b i, In i (bound_set c a) -> In i (bound_set c b) -> a = b) /\
   (forall a, NoDup (bound_set c a)) /\
   (forall a i, In i (bound_set c a) -> exists s, get_sock c i = Some s /\ s_addr s = Some a) /\
@@ -73,17 +73,17 @@ Proof.
 Qed.
 
 (* an address is handed out only while free, and a socket never changes its address *)
-Theorem bind_unique_step ops o sd :
-  let c := get_side (exec ops) sd in
-  let c' := get_side (exec (ops ++ [o])) sd in
+Theorem bind_unique_step blk ops o sd :
+  let c := get_side (exec blk ops) sd in
+  let c' := get_side (exec blk (ops ++ [o])) sd in
   forall j sj, get_sock c j = Some sj -> exists sj', get_sock c' j = Some sj' /\
     (s_addr sj' = s_addr sj \/
      (s_addr sj = None /\ exists a, s_addr sj' = Some a /\ 2 <= a < 64 /\ bound_set c a = [])).
 Proof.
   intros c c' j sj G. unfold c'. rewrite exec_app.
-  destruct (step_addr (exec ops) o sd (exec_wf2 ops) j sj G) as (sj' & G' & H).
+  destruct (step_addr (exec blk ops) o sd (exec_wf2 blk ops) j sj G) as (sj' & G' & H).
   exists sj'. split; auto. destruct H as [H|(N & a & A & F)]; auto. right. split; auto. exists a. split; auto.
-  assert (W' : wf (get_side (fst (step (exec ops) o)) sd)) by (apply wf2_side, step_wf2, exec_wf2).
+  assert (W' : wf (get_side (fst (step (exec blk ops) o)) sd)) by (apply wf2_side, step_wf2, exec_wf2).
   pose proof (wf_addr_range _ W' j sj' a G' A) as R. split; auto.
   apply free_abs; auto. apply wf2_side, exec_wf2.
 Qed.
@@ -337,7 +337,8 @@ Proof.
   - destruct (len (s_recvq s) <? s_rbuf s); cbn; auto.
   - destruct p; auto. destruct (link_miu <? len data); auto. destruct (len (s_recvq s) <? s_rbuf s); cbn; auto.
   - destruct (negb (is_dlc_pdu p)).
-    + destruct (sock_close s); auto. destruct (s_pend s); cbn; auto.
+    + destruct (negb (c_enq_blocks c) && sstate_eqb (s_state s) StEstablished); [cbn; auto|].
+      destruct (sock_close s); auto. destruct (s_pend s); cbn; auto.
       destruct (s_addr s); [rewrite sap_remove_get|]; auto.
     + destruct (s_state s); try (cbn; solve [auto]).
       all: destruct p; try (cbn; solve [auto]).
@@ -365,7 +366,8 @@ Proof.
     destruct (link_miu <? len data); [intro H; inversion H; cbn; tauto|].
     destruct (len (s_recvq s) <? s_rbuf s); intro H; inversion H; cbn; intuition congruence.
   - destruct (negb (is_dlc_pdu p)).
-    + destruct (sock_close s); [|discriminate]. destruct (s_pend s); intro H; inversion H; cbn; intuition discriminate.
+    + destruct (negb (c_enq_blocks c) && sstate_eqb (s_state s) StEstablished); [intro H; inversion H; cbn; tauto|].
+      destruct (sock_close s); [|discriminate]. destruct (s_pend s); intro H; inversion H; cbn; intuition discriminate.
     + destruct (s_state s); try (intro H; inversion H; cbn; tauto).
       all: destruct p; try (intro H; inversion H; cbn; tauto).
       all: cbn [is_connect]; cbn zeta; try (destruct (len (s_recvq s) <? s_rbuf s)); try (intro H; inversion H; cbn; intuition congruence).
@@ -489,7 +491,11 @@ Proof.
       * right. exists j, sj. split; [reflexivity|]. split; [exact Lb|]. split; [exact G|]. split; [exact A0|]. split; [congruence|].
         split; [exact PEER|]. split; [eapply get_put_same; eauto | intros; apply get_put_other; auto].
       * left. split; [intros ? ? []|]. intros k sk Gk. eauto.
-    + cbn [negb is_dlc_pdu] in H. destruct (sock_close sj) as [s'|] eqn:SC; [|inversion H; auto].
+    + cbn [negb is_dlc_pdu] in H.
+      destruct (negb (c_enq_blocks c) && sstate_eqb (s_state sj) StEstablished).
+      { inversion H; subst. right. eexists. split; [reflexivity|]. left. split; [intros ? ? []|].
+        eapply OTHERS; [eapply get_put_same; eauto | cbn; auto]. }
+      destruct (sock_close sj) as [s'|] eqn:SC; [|inversion H; auto].
       right. assert (Q' : s_recvq s' = []).
       { clear -SC. unfold sock_close in SC. destruct (s_type sj); try (inversion SC; reflexivity).
         destruct (_ && _); [|inversion SC; reflexivity]. cbn [s_recvq set_sendq set_state] in SC.
